@@ -102,6 +102,21 @@ def evaluate(model, Hcls, Icls, build, entries):
             v = H.element(I, dom, v)
         return flat(v)
     want = ent(I.call(A, [pt()], {}))
+    # the solvers apply one operator instance in place in every iteration:
+    # a first aliased call at another point (the entries in reverse order)
+    # must not leave anything behind that the next one picks up
+    try:
+        if entries is None:
+            z = sym_elem(dom, 'z')
+        else:
+            keep, entries = entries, list(reversed(list(entries)))
+            try:
+                z = pt()
+            finally:
+                entries = keep
+        I.call(A, [z], {'out': z})
+    except (Undecided, Fork, PyRaise, NotAnElement):
+        pass
     x = pt()
     r = I.call(A, [x], {'out': x})
     probs = []
